@@ -180,6 +180,68 @@ theorem follow_ref {id : List Char} (hid : RefSeg id) {rest T : List UInt8} (h :
       subst hr
       exact Or.inr ⟨hT.nonWs, Or.inr hst⟩
 
+theorem escB_len (w : List UInt8) : w.length ≤ (w.flatMap escB).length := by
+  induction w with
+  | nil => simp
+  | cons a w ih =>
+    have : 1 ≤ (escB a).length := by
+      unfold escB uEscape; repeat' split
+      all_goals simp
+    simp only [List.flatMap_cons, List.length_append, List.length_cons]; omega
+
+theorem encQuoted_len (cs : List Char) (h : AsciiStr cs) : (segBytes cs).length + 2 ≤ (encQuoted cs).length := by
+  have e : cs.flatMap encStrChar = (segBytes cs).flatMap escB := by
+    conv => lhs; rw [h.1]
+    exact flatMap_encStrChar _ h.lt
+  have := escB_len (segBytes cs)
+  unfold encQuoted
+  rw [e]
+  simp only [List.length_append, List.length_cons, List.length_nil]
+  omega
+
+theorem follow_str {cs : List Char} (hcs : AsciiStr cs) {rest T : List UInt8} (h : Sp rest T) :
+    Follow (encQuoted cs ++ rest) (.val (.str cs)) T := by
+  refine ⟨by have := h.len; simp; omega, ?_⟩
+  intro fuel s hv hf
+  have hl := encQuoted_len cs hcs
+  obtain ⟨s', h1, h2⟩ := lexRead_str cs hcs rest fuel s hv (by simp at hf; omega)
+  exact ⟨s', h1, h.pos h2⟩
+
+theorem escU_len (w : List UInt8) : w.length ≤ (w.flatMap escU).length := by
+  induction w with
+  | nil => simp
+  | cons a w ih =>
+    have : 1 ≤ (escU a).length := by
+      unfold escU uEscape; repeat' split
+      all_goals simp
+    simp only [List.flatMap_cons, List.length_append, List.length_cons]; omega
+
+theorem encUri_len (cs : List Char) (h : AsciiStr cs) : (segBytes cs).length + 2 ≤ (encUri cs).length := by
+  have e : cs.flatMap encUriChar = (segBytes cs).flatMap escU := by
+    conv => lhs; rw [h.1]
+    exact flatMap_encUriChar _ h.lt
+  have := escU_len (segBytes cs)
+  unfold encUri
+  rw [e]
+  simp only [List.length_append, List.length_cons, List.length_nil]
+  omega
+
+theorem follow_uri {cs : List Char} (hcs : AsciiStr cs) {rest T : List UInt8} (h : Sp rest T) :
+    Follow (encUri cs ++ rest) (.val (.uri cs)) T := by
+  refine ⟨by have := h.len; simp; omega, ?_⟩
+  intro fuel s hv hf
+  have hl := encUri_len cs hcs
+  obtain ⟨s', h1, h2⟩ := lexRead_uri cs hcs rest fuel s hv (by simp at hf; omega)
+  exact ⟨s', h1, h.pos h2⟩
+
+theorem follow_refdis {id dis : List Char} (hid : RefSeg id) (hdis : AsciiStr dis) {rest T : List UInt8} (h : Sp rest T) :
+    Follow (64 :: (segBytes id ++ 32 :: (encQuoted dis ++ rest))) (.val (.ref id (some dis))) T := by
+  refine ⟨by have := h.len; simp; omega, ?_⟩
+  intro fuel s hv hf
+  have hl := encQuoted_len dis hdis
+  obtain ⟨s', h1, h2⟩ := lexRead_refdis id dis hid hdis rest fuel s hv (by simp at hf; omega)
+  exact ⟨s', h1, h.pos h2⟩
+
 theorem follow_op (op : CmpOp) (X : List UInt8) (hX : nonWs X) : Follow (printOp op ++ 32 :: X) (opTok op) X := by
   refine ⟨by simp; omega, ?_⟩
   intro fuel s hv hf
@@ -203,11 +265,15 @@ theorem follow_rel {name : List Char} (hn : IdSeg name) {rest T : List UInt8} (h
 
 /-! ### the fragment -/
 
-/-- literals the proofs reach: Bool, Symbol, Ref (without display name) -/
+/-- literals the proofs reach: Bool, Symbol, Ref (with or without an ASCII display name), ASCII Str
+and Uri (every escape the writer produces included) -/
 def OkLit : Val → Prop
   | .bool _ => True
   | .sym s => SymSeg s
   | .ref id Option.none => RefSeg id
+  | .ref id (some d) => RefSeg id ∧ AsciiStr d
+  | .str s => AsciiStr s
+  | .uri s => AsciiStr s
   | _ => False
 
 mutual
@@ -399,14 +465,21 @@ theorem follow_lit : (v : Val) → OkLit v → ∀ {rest T : List UInt8}, Cont r
     have hid : RefSeg id := h
     have := follow_ref hid hC
     simpa [printVal, encode, enc, hid.enc, litTok] using this
-  | .ref _ (some _), h, _, _, _ => absurd h (by simp [OkLit])
+  | .ref id (some d), h, rest, T, hC => by
+    have hid : RefSeg id := h.1
+    have := follow_refdis hid h.2 hC.sp
+    simpa [printVal, encode, enc, hid.enc, litTok] using this
   | .null, h, _, _, _ => absurd h (by simp [OkLit])
   | .remove, h, _, _, _ => absurd h (by simp [OkLit])
   | .marker, h, _, _, _ => absurd h (by simp [OkLit])
   | .na, h, _, _, _ => absurd h (by simp [OkLit])
   | .num _, h, _, _, _ => absurd h (by simp [OkLit])
-  | .str _, h, _, _, _ => absurd h (by simp [OkLit])
-  | .uri _, h, _, _, _ => absurd h (by simp [OkLit])
+  | .str cs, h, rest, T, hC => by
+    have := follow_str (cs := cs) h hC.sp
+    simpa [printVal, encode, enc, litTok] using this
+  | .uri cs, h, rest, T, hC => by
+    have := follow_uri (cs := cs) h hC.sp
+    simpa [printVal, encode, enc, litTok] using this
   | .date _, h, _, _, _ => absurd h (by simp [OkLit])
   | .time _, h, _, _, _ => absurd h (by simp [OkLit])
   | .dateTime _, h, _, _, _ => absurd h (by simp [OkLit])
@@ -423,10 +496,12 @@ theorem lit_head (v : Val) (h : OkLit v) : nonWs (printVal v) := by
     · exact ⟨102, [97, 108, 115, 101], by simp [printVal, bytesOfAscii], by decide⟩
     · exact ⟨116, [114, 117, 101], by simp [printVal, bytesOfAscii], by decide⟩
   case sym s => exact ⟨94, encChars s, by simp [printVal, encode, enc], by decide⟩
+  case str cs => exact ⟨34, cs.flatMap encStrChar ++ [34], by simp [printVal, encode, enc, encQuoted], by decide⟩
+  case uri cs => exact ⟨96, cs.flatMap encUriChar ++ [96], by simp [printVal, encode, enc, encUri], by decide⟩
   case ref id dis =>
     cases dis with
     | none => exact ⟨64, encChars id, by simp [printVal, encode, enc], by decide⟩
-    | some d => simp [OkLit] at h
+    | some d => exact ⟨64, encChars id ++ [32] ++ encQuoted d, by simp [printVal, encode, enc], by decide⟩
 
 theorem parseCmp_lit (v : Val) (h : OkLit v) (F : Nat) (l : FLex) (s' : Scan) (p : Path) (op : CmpOp)
     (hr : lexRead F l.sc = .ok s' (litTok v)) :
